@@ -129,13 +129,14 @@ def idealOf (labels : List Label) (i : Nat) : Rat := (labels[i]?.map (·.ideal))
 def sortIds (labels : List Label) : List Nat :=
   ((labels.zipIdx).mergeSort (fun a b => decide (a.1.ideal ≤ b.1.ideal))).map (·.2)
 
-/-- half-open interval intersection of the ideal extents (`IntervalTree.overlap`) -/
+/-- half-open interval intersection of the ideal extents (`IntervalTree.overlap`); a label of width 0 occupies the EMPTY interval: it is not
+entered into the tree and overlaps nothing -/
 def overlaps (labels : List Label) (i j : Nat) : Bool :=
   let li := idealOf labels i - widthOf labels i / 2
   let ri := idealOf labels i + widthOf labels i / 2
   let lj := idealOf labels j - widthOf labels j / 2
   let rj := idealOf labels j + widthOf labels j / 2
-  decide (lj < ri) && decide (li < rj)
+  decide (li < ri) && decide (lj < rj) && decide (lj < ri) && decide (li < rj)
 
 /-- the inner loop of `algorithm_overlap`: `cur` carries (label id, overlap count) -/
 def punt (labels : List Label) (o : DOpts) (maxW : Rat) :
